@@ -158,6 +158,21 @@ var invalidUTF8 = []string{"\xff", "\x80", "\xc3", "\xe3\x81", "\xed\xa0\x80", "
 var utf8Contexts = []string{"%s", "a%sb c", "'%s'", "\"%s\"", "$%s", "${%s}", "${x%s}", "${x:-%s}", "${x#%s}", "$((%s))", "$((1 + %s))", "((%s))", "cat <<%s\nx\n%s\n", "cat <<E\n%s $x\nE\n", "cat <<'E'\n%s\nE\n",
 	"# %s\na", "\\%s", "`%s`", "$(%s)", "a=%s b", "%s=a b", ">%s", "a 2>%s", "case %s in (%s) a;; esac", "for %s in a; do b; done", "for i in %s; do b; done", "%s() { a; }", "a | %s && ! %s &", "if %s; then %s; fi", "a%s"}
 
+// Valid characters that somebody treats specially: U+0080 (first after
+// ASCII), no-break space, a combining mark, U+FFFD, a character beyond the
+// BMP, carriage return, form feed, a byte order mark, a non-ASCII digit, NUL, DEL.
+var unusualChars = []string{"\u0080", "\u00a0", "e\u0301", "\uFFFD", "\U0001F600", "\r", "\f", "\uFEFF", "\u0663", "\x00", "\x7f", "x\u0080", "\u0080x"}
+
+func unusualSources() []string {
+	var out []string
+	for _, c := range utf8Contexts {
+		for _, b := range unusualChars {
+			out = append(out, strings.ReplaceAll(c, "%s", b))
+		}
+	}
+	return out
+}
+
 func invalidSources() []string {
 	var out []string
 	for _, c := range utf8Contexts {
@@ -238,14 +253,14 @@ func TestC01(t *testing.T) {
 	// (i-b) byte sequences that are not valid UTF-8, in every kind of context
 	if sh == 0 {
 		k := 0
-		for _, src := range invalidSources() {
+		for _, src := range append(invalidSources(), unusualSources()...) {
 			for _, kind := range c01Kinds {
 				run(t, wproto.Req{Op: "parse", Src: src, Kind: kind, Cmd: k%5 == 0}, false)
 				k++
 			}
 		}
 		st.ClassN("invalid_utf8_in_context", int64(k))
-		st.Note("%d invalid UTF-8 sequences in each of %d syntactic contexts, through every source kind", len(invalidUTF8), len(utf8Contexts))
+		st.Note("%d invalid UTF-8 sequences and %d unusual valid characters in each of %d syntactic contexts, through every source kind", len(invalidUTF8), len(unusualChars), len(utf8Contexts))
 	}
 
 	// (i-c) small alias tables, systematically: a value that begins with another
